@@ -57,6 +57,20 @@ fn compress_multiple(data: &[u8], flags: u8) -> Result<Vec<u8>> {
     let has_bzip2 = (flags & flags::BZIP2) != 0;
     let has_sparse = (flags & flags::SPARSE) != 0;
 
+    // Refuse selectors this function cannot honour: the method byte is stored with the
+    // data, so silently ignoring a bit would label the output with a method the
+    // decompressor then applies
+    if (flags & flags::IMPLODE) != 0 {
+        return Err(Error::compression(
+            "IMPLODE cannot be combined with other compression methods",
+        ));
+    }
+    if has_adpcm_mono && has_adpcm_stereo {
+        return Err(Error::compression(
+            "ADPCM mono and stereo cannot be combined",
+        ));
+    }
+
     // We apply compressions in order: ADPCM, then others
     let mut current_data = data.to_vec();
 
